@@ -257,6 +257,34 @@ pub fn rec_wire_bytes(args: &Args) {
             }
         }
     }
+    // (a4) large datagrams, encoded by hand: 300 values under one number, 300 numbers, the longest value a
+    // datagram can carry (65535 + 269 bytes), a payload above 64 KiB, and the longest value cut short
+    {
+        let mut b = HEADERS[1].to_vec();
+        for i in 0..300usize {
+            push_hdr(&mut b, if i == 0 { 15 } else { 0 }, i % 3);
+            b.extend(vec![(i % 251) as u8; i % 3]);
+        }
+        ev_from_bytes(&mut out, &b);
+        let mut b = HEADERS[0].to_vec();
+        for i in 0..300usize {
+            push_hdr(&mut b, if i % 50 == 49 { 300 } else { 7 }, 1);
+            b.push(i as u8);
+        }
+        b.extend([0xFF, 1, 2, 3]);
+        ev_from_bytes(&mut out, &b);
+        let mut b = HEADERS[2].to_vec();
+        push_hdr(&mut b, 2000, 65535 + 269);
+        b.extend(r.bytes(65535 + 269));
+        ev_from_bytes(&mut out, &b);
+        ev_from_bytes(&mut out, &b[..b.len() - 1]);
+        b.extend([0xFF, 9]);
+        ev_from_bytes(&mut out, &b);
+        let mut b = HEADERS[0].to_vec();
+        b.extend([0x11, 0x22, 0xFF]);
+        b.extend(r.bytes(70_000));
+        ev_from_bytes(&mut out, &b);
+    }
     // (b) random strings
     for _ in 0..(if thorough { 20000 } else { 2000 }) {
         let n = r.below(40) as usize;
@@ -345,6 +373,16 @@ pub fn rec_wire_bytes(args: &Args) {
             let tkl = (b0 & 15) as usize;
             let mut b = vec![b0, code, 0x12, 0x34];
             b.extend((0..tkl.min(8)).map(|i| 0xA0 + i as u8));
+            if tkl > 8 && code % 16 == 1 {
+                // reserved token lengths with exactly that many bytes after the header (and one more / fewer)
+                for extra in [tkl - 9, tkl - 8, tkl - 7] {
+                    let mut d = b.clone();
+                    d.extend((0..extra).map(|i| 0xB0 + i as u8));
+                    swept += 1;
+                    forwarded += 1;
+                    ev_from_bytes(&mut out, &d);
+                }
+            }
             for tail in [&[][..], &[0x11, 0x22, 0xFF, 0x33][..]] {
                 let mut d = b.clone();
                 d.extend(tail);
@@ -616,9 +654,9 @@ fn ev_to_bytes(out: &mut Out, p: &Packet, limit: Option<Option<usize>>) {
         Some(None) => (false, 0, "to_bytes_unlimited"),
         Some(Some(l)) => (true, l, "to_bytes_with_limit"),
     };
-    if v > i32::MAX as usize {
-        return;
-    }
+    // limits beyond TLC's integers are recorded as the largest one it has (same meaning: far above any
+    // message length here)
+    let v = v.min(i32::MAX as usize);
     out.ev(json!({"op": "to_bytes", "api": api, "msg": jpkt(p), "limit": {"some": some, "v": v}, "out": o, "copies": copies}));
 }
 
@@ -734,6 +772,33 @@ pub fn rec_wire_limit(args: &Args) {
         }
         ev_to_bytes(&mut out, &p, Some(None));
         ev_to_bytes(&mut out, &p, None);
+    }
+    // large shapes: hundreds of values under one number, hundreds of numbers, the longest encodable value
+    // (65535 + 269 bytes) and one byte more (refused), a payload above 64 KiB, the largest limits
+    {
+        let mut many_vals = Packet::new();
+        for i in 0..300usize {
+            many_vals.add_option(CoapOption::UriQuery, vec![(i % 251) as u8; i % 3]);
+        }
+        let mut many_nums = Packet::new();
+        for i in 0..300u16 {
+            many_nums.add_option(CoapOption::from(1 + i * 7), vec![i as u8]);
+        }
+        let mut longest = Packet::new();
+        longest.add_option(CoapOption::from(2000), r.bytes(65535 + 269));
+        let mut too_long = Packet::new();
+        too_long.add_option(CoapOption::from(2000), r.bytes(65535 + 270));
+        let mut big_pay = Packet::new();
+        big_pay.header.code = 0x45.into();
+        big_pay.payload = r.bytes(70_000);
+        for p in [&many_vals, &many_nums, &longest, &too_long, &big_pay] {
+            let wl = guarded(|| p.to_bytes_unlimited()).and_then(|x| x.ok()).map(|b| b.len()).unwrap_or(0);
+            ev_to_bytes(&mut out, p, Some(None));
+            ev_to_bytes(&mut out, p, None);
+            for l in [wl.saturating_sub(1), wl, wl + 1, usize::MAX, usize::MAX - 3, 1usize << 32] {
+                ev_to_bytes(&mut out, p, Some(Some(l)));
+            }
+        }
     }
     // header replaced after set_token (the header is a public field): its token-length nibble then
     // disagrees with the stored token; the limit still applies to the bytes actually sent
